@@ -172,6 +172,21 @@ pub fn run(tier: &str, seed: u64, replay: Option<String>) -> i32 {
         js.retain(|j| matches!(j.edit, Edit::DelLine { .. } | Edit::DupLine { .. } | Edit::RenameQuoted { .. } | Edit::NumToText { .. } | Edit::NumOor { .. } | Edit::BlockRemoved { .. }));
         line_jobs.extend(js);
     }
+    // generated projects: one block written twice (every block type)
+    for f in &files {
+        let lines = diskfault::split_lines(&f.text);
+        for b in diskfault::scan_blocks(&lines) {
+            line_jobs.push(DJob {
+                file: f.rel.clone(),
+                edit: Edit::BlockDuplicated { line: b.start },
+                cell: format!("{}|{}|block_duplicated", f.kind.as_str(), b.btype),
+                level: 1,
+                e2e: false,
+                closure: true,
+                cost: f.text.len(),
+            });
+        }
+    }
     // generated projects: a space that keeps no enclosure of its own (HULC defines a partition in
     // only one of the two spaces it separates, so other walls may still name it as NEXT-TO)
     for f in &files {
